@@ -35,7 +35,7 @@ Deliverables - write them into the directory {wt}/_seed/ :
    patch.diff   output of `git -C {wt} diff -- src` (your change only; it must apply to the unchanged tree with `git apply`)
    demo.cpp     (plus build.sh: the exact commands to build and run the demo against a source tree given as $1, printing PASS or FAIL and exiting 0/1)
    notes.md     which clause of the property breaks, why ordinary use / the existing tests do not notice, what exactly is needed to manifest it, and the commands you ran with their results (test suite with the change: all 42 pass; demo without change: PASS; demo with change: FAIL)
-Verify all of that yourself before you finish. Prefer a subtle change over a blunt one; do not just delete a whole feature. Make exactly one seeded change (it may touch two cooperating places). When done, reply with a 5-line summary.
+Verify all of that yourself before you finish. Do NOT use 'git stash' (the stash is shared between all worktrees of the repository); to test the unchanged tree use 'git apply -R' or a 'git archive' export. Prefer a subtle change over a blunt one; do not just delete a whole feature. Make exactly one seeded change (it may touch two cooperating places). When done, reply with a 5-line summary.
 
 PROPERTY
 ========
